@@ -62,6 +62,10 @@ type sessionOut struct {
 // same for a history and for its fresh-session references).
 var sessionNoDot bool
 
+// sessionOSWriter makes interactive sessions use pprof's default Writer
+// (files on the simulated disk) instead of the in-memory one.
+var sessionOSWriter bool
+
 func runInteractive(x *xctx, cfg simrt.Config, prof []byte, flags []string, lines []string, perLine func(i int)) sessionOut {
 	simos.PutFile("/sim/cwd/prof.pb.gz", prof)
 	installTools(!sessionNoDot)
@@ -76,6 +80,14 @@ func runInteractive(x *xctx, cfg simrt.Config, prof []byte, flags []string, line
 	}
 	w := newWriter()
 	o := &plugin.Options{Flagset: newFlags(append(append([]string{}, flags...), "prof.pb.gz")), UI: ui, Writer: w, Sym: nopSym{}, Obj: nopObj{}, HTTPTransport: failTransport{}}
+	before := map[string]bool{}
+	if sessionOSWriter {
+		// pprof's own writer: output files are created on the (simulated) disk
+		o.Writer = nil
+		for _, n := range simos.ListFiles("/sim/cwd/") {
+			before[n] = true
+		}
+	}
 	var out sessionOut
 	cfg.Tape = x.t
 	out.res = simrt.Exec(cfg, func() { out.err = PProf(o) })
@@ -93,6 +105,14 @@ func runInteractive(x *xctx, cfg simrt.Config, prof []byte, flags []string, line
 	for _, n := range w.order {
 		b, _ := w.get(n)
 		out.files[n] = b
+	}
+	if sessionOSWriter {
+		for _, n := range simos.ListFiles("/sim/cwd/") {
+			if !before[n] {
+				b, _ := simos.GetFile(n)
+				out.files[strings.TrimPrefix(n, "/sim/cwd/")] = b
+			}
+		}
 	}
 	out.stdout = string(simos.TakeStdout())
 	out.ui = ui
